@@ -73,6 +73,8 @@ TEMPLATES = """
   framer TB be moot first tb0
     frame tb0
       aux TA as %s
+      aux TA as mine
+      aux TA as mine
       do vfrec at recur with tag "tb"
 """
 
